@@ -258,8 +258,8 @@ def calleeModel (T : CaseTable) (f : VCell) : Callee := fun s args =>
 
 def runModel (T : CaseTable) (s : Store) (name : String) (args : List VCell) : Option Res :=
   match name, args with
-  | "map", f :: ls => if ls.isEmpty then some (.err .arity) else some (map (calleeModel T f) (fuelOf s) s ls)
-  | "for-each", f :: ls => if ls.isEmpty then some (.err .arity) else some (forEach (calleeModel T f) (fuelOf s) s ls)
+  | "map", f :: ls => some (map (calleeModel T f) (fuelOf s) s ls)
+  | "for-each", f :: ls => some (forEach (calleeModel T f) (fuelOf s) s ls)
   | "map", [] => some (.err .arity)
   | "for-each", [] => some (.err .arity)
   | _, _ => runModelBase T s name args
